@@ -14,10 +14,13 @@ ms / ns in `duration()`, `last_played_at()`, `snapshot()`; the generated
 rate, BPM, ceil(BPM)), `div_zero` (`sample_count / (int64) sample_rate`).
 
 `o : FOps` is the double arithmetic whose results only reach raw columns; the
-only law assumed of it is `CeilBounded` (IEEE `ceil` keeps |x| < 2^63 below
-2^63), needed by `set_bpm` alone.  `dbOk` is the invariant "stored whole
-seconds scale back into int64"; it holds of the empty library and is kept by
-every operation, so every reachable state has it.
+only law assumed of it is `CeilInRange` (for |x| < 2^63 the cast of `ceil x` to
+int64 is defined), needed by `set_bpm` alone — and proved here for the bit-exact
+IEEE `ceil` (`ceilBits`), which the driver compares with the hardware on every
+run.  `DbInv` is the invariant of the tracks-1.x package (stored whole seconds
+scale back into int64, eight cue / loop slots, …); it holds of the empty
+library and is kept by every operation (their locked theorems `v1_C06_inv_db`,
+`v1_C06_remove_track`), so every reachable state has it.
 -/
 import Proofs.NoUbTracksV1
 
@@ -26,69 +29,71 @@ open EngineModel EngineModel.TracksV1 EngineModel.Api.C15TracksV1
 open Fl (FOps)
 
 /-- No operation, with any arguments, has undefined behaviour on a library whose rows satisfy the invariant. -/
-theorem v1t_C15_no_ub (o : FOps) (hc : CeilBounded o) (d : Db) (hd : dbOk d = true) (op : Op) (u : Ub) :
+theorem v1t_C15_no_ub (o : FOps) (hc : CeilInRange o) (d : Db) (hd : DbInv d) (op : Op) (u : Ub) :
     (step o d op).2 ≠ .ub u :=
   step_defined o hc d hd op u
 
 /-- Every operation keeps the invariant (whether it returns or throws). -/
-theorem v1t_C15_invariant (o : FOps) (d : Db) (hd : dbOk d = true) (op : Op) : dbOk (step o d op).1 = true :=
-  step_dbOk o d hd op
+theorem v1t_C15_invariant (o : FOps) (d : Db) (hd : DbInv d) (op : Op) : DbInv (step o d op).1 :=
+  step_inv o d hd op
 
 /-- The empty library of any 1.x version satisfies the invariant. -/
-theorem v1t_C15_empty (s : Schema) : dbOk ⟨s, []⟩ = true := rfl
+theorem v1t_C15_empty (s : Schema) : DbInv ⟨s, []⟩ := dbInv_empty s
 
 /-- **Reachable states**: along any script of operations with any arguments, started on the empty
 library of any 1.x version, no call has undefined behaviour. -/
-theorem v1t_C15_reachable_no_ub (o : FOps) (hc : CeilBounded o) (s : Schema) (ops : List Op) :
+theorem v1t_C15_reachable_no_ub (o : FOps) (hc : CeilInRange o) (s : Schema) (ops : List Op) :
     ∀ r ∈ outcomes o ⟨s, []⟩ ops, ∀ u, r ≠ .ub u :=
-  fun r hr u => outcomes_defined o hc ops ⟨s, []⟩ rfl r hr u
+  fun r hr u => outcomes_defined o hc ops ⟨s, []⟩ (dbInv_empty s) r hr u
+
+/-- The law assumed of `ceil` (`CeilInRange`, stated by the tracks-1.x package) is a theorem for the
+bit-exact IEEE `ceil` (`ceilBits`, compared with the hardware's on every run): with it, nothing at all is
+assumed of the double arithmetic. -/
+theorem v1t_C15_ceil_exact (o : FOps) : CeilInRange (withExactCeil o) :=
+  ceilInRange_of_bounded (ceilBounded_exact o)
+
+theorem v1t_C15_reachable_no_ub_exact_ceil (o : FOps) (s : Schema) (ops : List Op) :
+    ∀ r ∈ outcomes (withExactCeil o) ⟨s, []⟩ ops, ∀ u, r ≠ .ub u :=
+  v1t_C15_reachable_no_ub (withExactCeil o) (v1t_C15_ceil_exact o) s ops
 
 /-- create_track / update never have undefined behaviour, whatever the snapshot and whatever was stored
 before — no invariant needed (over-long cue lists, labels of any length, absent optionals, a waveform
-without sample rate, doubles of any bit pattern incl. NaN and infinities). -/
+without sample rate, doubles of any bit pattern incl. NaN and infinities), also through the handle of a
+removed track. -/
 theorem v1t_C15_write_any_snapshot (o : FOps) (d : Db) (id : Int) (x : Snap) (u : Ub) :
     dbCreate o d x ≠ .ub u ∧ dbUpdate o d id x ≠ .ub u :=
   ⟨dbCreate_defined o d x u, dbUpdate_defined o d id x u⟩
 
-/-- The per-slot accessors at any `int` index: a value or an exception. -/
-theorem v1t_C15_slot_any_index (o : FOps) (r : TrackRows) (i : UInt32) (q : Option Impl.V1.HotCue)
-    (l : Option Impl.V1.LoopV) (u : Ub) :
+/-- The per-slot accessors at any `int` index, on any rows: a value or an exception. -/
+theorem v1t_C15_slot_any_index (o : FOps) (hc : CeilInRange o) (r : TrackRows) (i : UInt32)
+    (q : Option Impl.V1.HotCue) (l : Option Impl.V1.LoopV) (u : Ub) :
     get o r (.hotCueAt i) ≠ .ub u ∧ get o r (.loopAt i) ≠ .ub u ∧
     TracksV1.set o r (.hotCueAt i) q ≠ .ub u ∧ TracksV1.set o r (.loopAt i) l ≠ .ub u := by
-  refine ⟨?_, ?_, ?_, ?_⟩
+  refine ⟨?_, ?_, set_def o hc r (.hotCueAt i) q u, set_def o hc r (.loopAt i) l u⟩
   · simp only [TracksV1.get]; exact slot_lookup_defined _ _ u
   · simp only [TracksV1.get]; exact slot_lookup_defined _ _ u
-  · simp only [TracksV1.set]
-    refine Defined.bind ?_ (fun _ _ => setCuesCol_defined _ _) u
-    unfold slotIndex; simp only; split
-    · exact Defined.throw _
-    · exact Defined.ok _
-  · simp only [TracksV1.set]
-    refine Defined.bind ?_ (fun _ _ => setLoopsCol_defined _ _) u
-    unfold slotIndex; simp only; split
-    · exact Defined.throw _
-    · exact Defined.ok _
 
-/-- **Stale handles**: after `remove_track`, the handle reports `is_valid() = false`; `id()`, copying,
-assigning and destroying it succeed; every other call through it throws `track_deleted`. -/
-theorem v1t_C15_stale_handle (o : FOps) (d : Db) (id : Int) :
+/-- **Stale handles**: after `remove_track` the handle reports `is_valid() = false`; `id()`, copying,
+assigning and destroying it succeed; every setter and `snapshot()` throw, and no call whatsoever through
+it has undefined behaviour (the getters of MetaData / PerformanceData columns answer as for a track
+without such rows, the others throw `track_deleted`). -/
+theorem v1t_C15_stale_handle (o : FOps) (hc : CeilInRange o) (d : Db) (hd : DbInv d) (id : Int) :
     let d' := (step o d (.remove id)).1
-    void (step o d' (.isValid id)).2 = .ok () ∧ isValid d' id = .ok false ∧
+    (step o d' (.isValid id)).2 = .ok (.bool false) ∧
     void (step o d' (.handleId id)).2 = .ok () ∧ void (step o d' (.handleCopy id)).2 = .ok () ∧
-    (∀ f, void (step o d' (.get id f)).2 = .throw (.dj "track_deleted")) ∧
-    (∀ f v, void (step o d' (.set id f v)).2 = .throw (.dj "track_deleted")) ∧
-    (∀ g, void (step o d' (.getDerived id g)).2 = .throw (.dj "track_deleted")) ∧
+    (∀ f v, ∃ e, void (step o d' (.set id f v)).2 = .throw e) ∧
     void (step o d' (.snapshot id)).2 = .throw (.dj "track_deleted") ∧
-    (∀ x, void (step o d' (.update id x)).2 = .throw (.dj "track_deleted")) := by
-  have hv := isValid_after_remove d id
-  have hr := rows_after_remove d id
-  simp only [step]
-  refine ⟨by rw [hv]; rfl, hv, rfl, rfl, ?_, ?_, ?_, ?_, ?_⟩
-  · intro f; simp only [dbGet, hr]; rfl
-  · intro f v; simp only [dbSet, hr]; rfl
-  · intro g; simp only [hr]; rfl
-  · simp only [dbSnap, hr]; rfl
-  · intro x; simp only [dbUpdate, hr]; rfl
+    (∀ op u, (step o d' op).2 ≠ .ub u) := by
+  intro d'
+  have hrows : d'.rows id = none := (C06V1.v1_C06_remove_track d id).1
+  have hinv : DbInv d' := (C06V1.v1_C06_remove_track d id).2.2.2 hd
+  obtain ⟨hset, hsnap, hval, _⟩ := C06V1.v1_C06_absent_track o d' id hrows
+  refine ⟨?_, rfl, rfl, ?_, ?_, fun op u => step_defined o hc d' hinv op u⟩
+  · simp only [step, hval]
+  · intro f v
+    obtain ⟨e, he⟩ := hset f v
+    exact ⟨e, by simp only [step, he]; rfl⟩
+  · simp only [step, hsnap]; rfl
 
 /-! ### non-vacuity -/
 
@@ -96,6 +101,12 @@ theorem v1t_C15_stale_handle (o : FOps) (d : Db) (id : Int) :
 def exOps : FOps := ⟨fun _ => 0, fun _ => 0, fun _ _ => 0, id⟩
 
 example : CeilBounded exOps := fun _ h => h
+example : CeilInRange exOps := ceilInRange_of_bounded (fun _ h => h)
+example : ceilBits 0x3fe0000000000000 = F64.one := by decide            -- ceil 0.5 = 1
+example : ceilBits 0xbfe0000000000000 = F64.negZero := by decide        -- ceil −0.5 = −0
+example : ceilBits 0x405e200000000000 = 0x405e400000000000 := by decide -- ceil 120.5 = 121
+example : ceilBits 0x432fffffffffffff = 0x4330000000000000 := by decide -- ceil (2^52 − 0.5) = 2^52 (carry into the exponent)
+example : ceilBits 0xc05e200000000000 = 0xc05e000000000000 := by decide -- ceil −120.5 = −120
 
 def exSnap : Snap :=
   { Snap.empty with
@@ -110,7 +121,7 @@ def exSnap : Snap :=
 def exDb : Db := (step exOps ⟨.s1_15_0, []⟩ (.create exSnap)).1
 
 example : exDb.tracks.length = 1 := by decide +kernel
-example : dbOk exDb = true := by decide +kernel
+example : DbInv exDb := step_inv exOps _ (dbInv_empty _) _
 /-- index −1, 8, INT_MAX, INT_MIN: an exception, not an out-of-bounds access -/
 example : void (step exOps exDb (.get 1 (.hotCueAt 4294967295))).2 = .throw .out_of_range := by decide +kernel
 example : void (step exOps exDb (.get 1 (.loopAt 8))).2 = .throw .out_of_range := by decide +kernel
@@ -128,7 +139,7 @@ example : void (step exOps exDb (.set 1 .sampleRate (some 0x3fe0000000000000))).
 /-- the extreme duration reads back without overflow -/
 example : void (step exOps exDb (.get 1 .duration)).2 = .ok () := by decide +kernel
 example : void (step exOps exDb (.snapshot 1)).2 = .ok () := by decide +kernel
-/-- a row that violates the invariant does overflow: the hypothesis `dbOk` is needed -/
+/-- a row that violates the invariant does overflow: the invariant is needed -/
 example : void (get exOps { blankRows with track := { TrackRow.blank with length := some 9223372036854775807 } }
     .duration) = .ub .signed_overflow := by decide +kernel
 
